@@ -272,6 +272,16 @@ fn structural(ctx: &'static Ctx) {
                 cases.push((li, V::M((0..n).map(|i| (V::t(&format!("k{:03}", i)), V::U(i as u64))).collect()), format!("textmap({})", n)));
                 cases.push((li, V::M((0..n).map(|i| (V::U(i as u64), V::U(i as u64))).collect()), format!("intmap({})", n)));
             }
+            // very long lists of short entries (counters, capacity arithmetic at 8/16-bit boundaries)
+            for n in [254usize, 255, 256, 257, 300, 1000, 3000] {
+                cases.push((li, V::A((0..n).map(|_| V::t("x")).collect()), format!("short-texts({})", n)));
+                cases.push((li, V::A((0..n).map(|i| V::U(i as u64 % 24)).collect()), format!("small-ints({})", n)));
+                cases.push((li, V::M((0..n).map(|i| (V::U(i as u64), V::U(0))).collect()), format!("small-intmap({})", n)));
+                if n <= 300 {
+                    cases.push((li, V::A((0..n).map(|i| crate::refmodel::param(-1000 - i as i64, "k")).collect()), format!("short-params({})", n)));
+                    cases.push((li, V::A((0..n).map(|i| V::M(vec![(V::t("id"), V::B(vec![i as u8])), (V::t("type"), V::t("k"))])).collect()), format!("short-descriptors({})", n)));
+                }
+            }
             for x in [0u64, 23, 24, 255, 256, 65535, 65536, u32::MAX as u64, 1 << 32, i64::MAX as u64, 1 << 63, u64::MAX] {
                 cases.push((li, V::U(x), format!("uint({})", x)));
                 cases.push((li, V::N(x), format!("nint({})", x)));
